@@ -425,6 +425,9 @@ pub mod dbpages {
     pub struct TreePages {
         pub name: String,
         pub root: u64,
+        /// the relation was created by a transaction that aborted: nobody can see it, its pages
+        /// are garbage until VACUUM releases them
+        pub dead: bool,
         /// tree nodes (interior and leaf pages)
         pub nodes: Vec<u64>,
         /// (leaf page, cell index, chain) for every leaf cell with an overflow chain
@@ -520,7 +523,7 @@ pub mod dbpages {
             (p.min_keys_per_page(), p.num_siblings_per_side())
         };
         let schema = meta_table_schema();
-        let mut rels: Vec<(String, PageId)> = vec![];
+        let mut rels: Vec<(String, PageId, bool)> = vec![];
         {
             let mut meta: Btree<BtreeReadAccessor> = Btree::new(1, pager.clone(), min_keys, siblings).with_accessor(BtreeReadAccessor::new());
             let empty = match meta.is_empty() {
@@ -545,8 +548,17 @@ pub mod dbpages {
                     let r = meta2.with_cell_at(pos, |bytes| {
                         let reader = TupleReader::from_schema(&schema);
                         match reader.parse_for_snapshot(bytes, &snapshot) {
-                            Ok(Some(layout)) => TupleRef::new(bytes, layout).to_row_with(&schema).ok().map(Relation::from_meta_table_row).map(|r| (r.name().to_string(), r.root())),
-                            _ => None,
+                            Ok(Some(layout)) => TupleRef::new(bytes, layout).to_row_with(&schema).ok().map(Relation::from_meta_table_row).map(|r| (r.name().to_string(), r.root(), false)),
+                            _ => {
+                                // invisible: created by a transaction that aborted (and not dropped since)?
+                                let t = crate::storage::tuple::Tuple::from_slice_unchecked(bytes).ok()?;
+                                if t.xmax().is_none() && snapshot.is_transaction_aborted(t.xmin()) {
+                                    let layout = reader.parse_last_version(bytes).ok()?;
+                                    TupleRef::new(bytes, layout).to_row_with(&schema).ok().map(Relation::from_meta_table_row).map(|r| (format!("{} (creator aborted)", r.name()), r.root(), true))
+                                } else {
+                                    None
+                                }
+                            }
                         }
                     });
                     if let Ok(Some(x)) = r {
@@ -555,14 +567,14 @@ pub mod dbpages {
                 }
             }
         }
-        let mut roots: Vec<(String, PageId)> = vec![("<meta table>".into(), 1), ("<meta index>".into(), 2)];
+        let mut roots: Vec<(String, PageId, bool)> = vec![("<meta table>".into(), 1, false), ("<meta index>".into(), 2, false)];
         roots.extend(rels);
-        for (name, root) in roots {
+        for (name, root, dead) in roots {
             if root == 0 || root >= d.total_pages {
                 d.error = Some(format!("relation '{name}' has root page {root} outside the file"));
                 return d;
             }
-            let mut t = TreePages { name, root, ..Default::default() };
+            let mut t = TreePages { name, root, dead, ..Default::default() };
             if let Err(e) = walk(&pager, root, 0, d.total_pages, &mut t) {
                 d.error = Some(e);
                 d.trees.push(t);
